@@ -91,6 +91,17 @@ var c11ReviewedPanics = map[string]string{
 
 var c17ReviewedPanics = map[string]string{}
 
+var c10ReviewedPanics = map[string]string{
+	`(*canvas.SweepEvents).AddPathEndpoints|"non-flat paths not supported"`:                       "bentleyOttmann replaces every operand sub-path by its Flatten(Tolerance) before it calls AddPathEndpoints (both operand loops), and Flatten replaces every quadratic, cubic and arc command",
+	`(*canvas.SweepEvents).AddPathEndpoints|"path has NaN or Inf"`:                                "C10 quantifies over finite arguments; a path built from finite numbers has finite coordinates",
+	`(*canvas.SweepStatus).rebalance|"Tree too far out of shape!"`:                                "AVL invariant: every insertion and removal rebalances bottom-up, so a balance factor beyond ±2 cannot arise from a single update",
+	`canvas.addCubicBezierLine|"not implemented"`:                                                 "every call site passes the constant 0.0 or 1.0 for t",
+	`canvas.cubicBezierNormal|"not implemented"`:                                                  "called with the constants 0.0/1.0 or from addCubicBezierLine's t == 0.0 / t == 1.0 branches only",
+	`canvas.findInflectionPointRangeCubicBezier|"t outside 0.0--1.0 range"`:                       "t comes from findInflectionPointsCubicBezier, which returns NaN (handled first) or a value inside (Epsilon/2, 1-Epsilon/2)",
+	`canvas.bentleyOttmann|"other endpoint already removed, probably buggy intersection code"`:    "guards the same status invariant as its two siblings, which are listed as known findings with failing inputs; no failing input was found for this one in 80 000 random near-degenerate operand pairs — NOT proven unreachable",
+	`canvas.bentleyOttmann|"right-endpoint not part of status, probably buggy intersection code"`: "guards the same status invariant as its two siblings, which are listed as known findings with failing inputs; no failing input was found for this one in 80 000 random near-degenerate operand pairs — NOT proven unreachable",
+}
+
 func init() {
 	register("C11", &Property{
 		Title:       "Textual path formats round-trip and parsers never panic",
@@ -157,6 +168,7 @@ func init() {
 			E6JoinerSupport(c, r)
 			E6MemoIndependent(c, r)
 			E6MemoSharedState(c, r)
+			E6OperatorThroughSetter(c, r)
 			E11GramConsistency(c, r)
 			E6StyleCoverage(c, r, nil)
 			E6DashScaling(c, r)
@@ -172,7 +184,7 @@ func init() {
 func init() {
 	register("C10", &Property{
 		Title:       "Built paths are well-formed; operations on them are total and side-effect free",
-		Explanation: "Decides, for every path and argument: (1) every exported method of *Path/Paths other than the documented in-place mutators/sinks (each re-justified by its doc phrase) writes no memory reachable from its receiver or arguments — interprocedural effect analysis on SSA; the copy-on-write latch of replace is verified structurally; (2) the command encoding discipline: cmdLen vs the format, payload offsets inside the decoded record, every record built/retagged with the command at both ends; Split hands out capacity-limited sub-slices; (3) no in-place transform accumulates over loop iterations, no loop state variable is stuck at its initial constant. NOT decided: 'no zero-length segments', the geometry the builders trace, implicit run-time panics other than those named, termination.",
+		Explanation: "Decides, for every path and argument: (1) every exported method of *Path/Paths other than the documented in-place mutators/sinks (each re-justified by its doc phrase) writes no memory reachable from its receiver or arguments — interprocedural effect analysis on SSA; the copy-on-write latch of replace is verified structurally; (2) the command encoding discipline: cmdLen vs the format, payload offsets inside the decoded record, every record built/retagged with the command at both ends; Split hands out capacity-limited sub-slices; (3) no in-place transform accumulates over loop iterations, no loop state variable is stuck at its initial constant. (4) since batch 12: every explicit panic reachable from Settle/And/Or/Xor/Not/DivideBy is a reviewed precondition or data-structure guard, or a known finding with a failing input; the sweep's work-list loop is reported for having no explicit bound (known finding: an operand pair on which Or does not return). NOT decided: 'no zero-length segments', the geometry the builders trace, implicit run-time panics other than those named, termination of anything but that loop.",
 		Assumptions: []string{"standard-library functions not in the mutator table are pure (listed in coverage.external_assumed)", "results of calls through function-typed parameters are fresh objects", "one reviewed call edge: Dash -> Join (reason in the checker's exception table)"},
 		Run: func(c *core.Ctx, r *core.Report) {
 			E1PathMethods(c, r)
@@ -185,6 +197,13 @@ func init() {
 			E11SplitCap(c, r)
 			E11StuckVariables(c, r)
 			E11InPlaceInLoop(c, r)
+			r.Rule("E4.panic-reach-boolean", "no explicit panic(...) is reachable from Path.Settle, And, Or, Xor, Not and DivideBy on a well-formed finite path, other than the reviewed precondition and data-structure guards; the sites whose message says 'probably buggy intersection code' / 'impossible' are reachable and two of them have failing inputs (known findings)")
+			var broots []*ssa.Function
+			for _, nm := range []string{"Path.Settle", "Path.And", "Path.Or", "Path.Xor", "Path.Not", "Path.DivideBy"} {
+				broots = append(broots, c.SSAFunc("", nm))
+			}
+			E4PanicReachability(c, r, "E4.panic-reach-boolean", broots, c10ReviewedPanics, true)
+			E4WorklistBound(c, r)
 		},
 	})
 }
@@ -212,6 +231,7 @@ func init() {
 		Title:       "Context and Canvas apply views, coordinate systems and state as documented",
 		Explanation: "Decides, for every call sequence: view helpers are exactly `view = view.Mul(Identity.<same-named op>(own parameters))` (post-multiplication) and ComposeView post-multiplies its argument; the four draw entry points assemble the same matrix CoordSystemView().Mul(view).Translate(coordView.Dot(x,y)) and compensate text/images exactly in the coordinate systems whose CoordSystemView reflects that axis; every Set*/Reset* method stores only into ContextState; Push saves and Pop restores the whole ContextState (Pop guarded, shrinking by one); Fill/Stroke clear and restore exactly the other paint; drawing does not rewrite the dash array shared with pushed states; RenderViewTo replays in sorted z-index then slice order with no renderer call inside a map range, and recording appends to the current z-index slice. NOT decided: the matrix algebra itself, Fit/Clip/Transform arithmetic, that DrawPath with several paths keeps per-path stroke state.",
 		Run: func(c *core.Ctx, r *core.Report) {
+			E11DashPairTogether(c, r)
 			E11DashCover(c, r)
 			E11DrawLoopState(c, r)
 			E11ReflectCurrentImage(c, r)
@@ -252,6 +272,7 @@ func init() {
 		Title:       "Dashing cuts the path by arc length according to the pattern",
 		Explanation: "Decides two structural clauses: (1) 'independently for every subpath': in Dash the only variable carried across iterations of the sub-path loop is the output accumulator and every iteration restarts from (i0, pos0); (2) pieces cut by SplitAt are made relative to the previous cut in every curve case (E11.cut-carried), read the sub-path's own data (E2 cursor domain) and keep the arc rotation in consistent units (E8). NOT decided: every arithmetic clause (phase, period, offsets, arc-length inversion, piece order, joining of closed sub-paths, degenerate patterns). Argument mutation by Dash is decided under C10/C15.",
 		Run: func(c *core.Ctx, r *core.Report) {
+			E11DashPairTogether(c, r)
 			E11DashPeriod(c, r)
 			E11DashOffsetRange(c, r)
 			E11DashCover(c, r)
@@ -270,6 +291,7 @@ func init() {
 		Title:       "Embedded fonts and glyph paths reproduce the laid-out text",
 		Explanation: "Decides three structural clauses: (1) 'the glyph subsetter assigns each used glyph one stable code with .notdef at zero' — the constructor and Get/List have exactly the hit/miss/append shape, and the PDF writer creates a font's subsetter only when the font has none (a second writing direction must not reset the codes already written); (2) fonts used for vertical text are kept in their own map and written with the matching vertical flag (Identity-V vs Identity-H), every font map that reserves an object is written in Close, and every Tf operand names a font registered in the page's resources (E5 font-map and resource rules). NOT decided: outlines, advances, the W array, ToUnicode contents, glyph placement in toPath.",
 		Run: func(c *core.Ctx, r *core.Report) {
+			E11AdvanceAxis(c, r)
 			E11Subsetter(c, r)
 			E5SubsetOnce(c, r)
 			E5WidthRuns(c, r)
@@ -340,6 +362,7 @@ func init() {
 		Assumptions: []string{"sync, sync/atomic behave as documented", "the API set is the one listed in DESIGN.md §3 C20"},
 		Run: func(c *core.Ctx, r *core.Report) {
 			E7Globals(c, r)
+			E7GlobalEscape(c, r)
 			E7OnceBeforeUse(c, r, c20APIRoots(c))
 			E7PoolReinit(c, r)
 			E7MapOrder(c, r)
